@@ -129,7 +129,7 @@ def main(argv=None):
     p.add_argument("file")
     p.set_defaults(fn=cmd_replay)
     p = sub.add_parser("selftest")
-    p.add_argument("what", choices=["determinism", "sensitivity", "seeded", "harness", "all"])
+    p.add_argument("what", choices=["determinism", "sensitivity", "seeded", "benign", "harness", "all"])
     p.add_argument("--props", default="C11,C12,C15,C16")
     p.add_argument("--runs", type=int, default=200)
     p.add_argument("--only")
